@@ -27,7 +27,8 @@ def main():
     for f in glob.glob(os.path.join(cov, "*.profraw")):
         os.remove(f)
     target = os.path.join(R.BUILD, "cargo-cov")
-    env = dict(R.ENV, CARGO_TARGET_DIR=target, RUSTFLAGS="--cfg unic_locale_verif -C instrument-coverage")
+    env = dict(R.ENV, CARGO_TARGET_DIR=target, RUSTFLAGS="--cfg unic_locale_verif -C instrument-coverage",
+               LLVM_PROFILE_FILE=os.path.join(cov, "build-%p.profraw"))   # proc macros are instrumented too: keep their output out of /repo
     r = subprocess.run(["cargo", "+nightly", "build", "--release", "--offline", "--no-default-features", "--features",
                         "likely,serde,macros"], cwd=R.HARNESS_SRC, env=env, capture_output=True, text=True)
     exe = os.path.join(target, "release", "ulharness")
